@@ -13,6 +13,7 @@ import (
 	"strconv"
 	"strings"
 	"sync"
+	"syscall"
 	"time"
 
 	"hop.computer/hop/authgrants"
@@ -29,6 +30,11 @@ import (
 // Every line is its own case.  The value syntax is documented in Driver/C18.lean.
 
 func main() {
+	// a reader that allocates what a length field announces must not take the machine's memory with it: with
+	// an address-space limit the process dies instead (`<crash>` on that input) and the runner goes on with
+	// the next line
+	lim := syscall.Rlimit{Cur: 5 << 30, Max: 5 << 30}
+	syscall.Setrlimit(syscall.RLIMIT_AS, &lim)
 	Main(map[string]*Suite{"C18": {Gen: gen, Run: run}, "C18junk": {Gen: genJunk, Run: run}})
 }
 
@@ -744,8 +750,9 @@ func xstDecode(b []byte) string {
 	var out string
 	select {
 	case out = <-res:
-	case <-time.After(60 * time.Second):
+	case <-time.After(20 * time.Second):
 		out = "harness-timeout"
+		hugeAllocs++
 	}
 	st.Close()
 	return out
@@ -817,7 +824,15 @@ func uaDecode(b []byte) string {
 
 // ------------------------------------------------------------------ runner
 
+// hugeAllocs counts the calls that allocated more than 64 MiB: after four of them the remaining junk of the
+// run is not decoded any more (a decoder that allocates what a length field announces takes seconds per
+// case; the four cases are the failing inputs)
+var hugeAllocs int
+
 func allocClass(what string, f func() string) string {
+	if hugeAllocs >= 4 {
+		return "harness-alloc-storm"
+	}
 	var a, b runtime.MemStats
 	runtime.ReadMemStats(&a)
 	r := Guard(f)
@@ -825,6 +840,9 @@ func allocClass(what string, f func() string) string {
 	d := b.TotalAlloc - a.TotalAlloc
 	if what == "ua" || what == "xst" {
 		d = uaAlloc
+	}
+	if d > 64<<20 {
+		hugeAllocs++
 	}
 	cls := "small"
 	// 256 KiB: twice the 128 KiB the model's counter is held to (Go copies a buffer once more
